@@ -79,12 +79,19 @@ def post_run(tier, seed, merged):
     from ..wire import enc
     import random
     rng = random.Random(seed)
-    reqs = list(merged.get("recorded", []))[:24]
     ev = enc(core_event(rng))
-    for src in MIRI_PROGRAMS:
-        reqs.append({"op": "run", "src": src, "probe": False, "events": [{"e": ev}]})
-    res = sanitize.miri_replay(reqs, "C13")
+    # two Miri runs, so that the targeted programs (the unsafe recursive iterator under closures) get a
+    # verdict even when the recorded sample is too slow for the interpreter on a loaded machine
+    reqs = [{"op": "run", "src": src, "probe": False, "events": [{"e": ev}]} for src in MIRI_PROGRAMS]
+    res = sanitize.miri_replay(reqs, "C13", timeout=2400)
     merged["sanitizers"]["miri"] = {k: v for k, v in res.items() if k != "stderr"}
+    if res["status"] != "report":
+        sample = [dict(r, events=r.get("events", [])[:1]) for r in list(merged.get("recorded", []))[:8]]
+        if sample:
+            res2 = sanitize.miri_replay(sample, "C13-sample", timeout=2400)
+            merged["sanitizers"]["miri_recorded_sample"] = {k: v for k, v in res2.items() if k != "stderr"}
+            if res2["status"] == "report":
+                res, reqs = res2, sample
     if res["status"] == "report":
         merged["violations"]["miri:%s@%s" % (res["kind"][:60], res.get("location", "?"))] = {
             "count": 1, "detail": {"stderr": res.get("stderr"), "requests": len(reqs)}, "case": {"requests": reqs},
